@@ -5,6 +5,8 @@ CONSTANTS
   Specs <- SpecsG
   Msgs <- MsgsG
   Apis = {"wait"}
+  Timeouts = {"short"}
+  MaxElapse = 0
   MaxFeeds = 2
   MaxBatch = 2
   MaxCancel = 1
@@ -17,6 +19,9 @@ CONSTANTS
   AllFieldMatchers = TRUE
   TicketBeforeRegister = TRUE
   LiveListAtCompletion = TRUE
+  ReleaseWhenSendCancelled = TRUE
+  TimeoutForwarded = TRUE
+  RegisterAfterSend = TRUE
 INVARIANT TypeOK
 INVARIANT OnlyMatching
 INVARIANT FirstMatching
